@@ -981,7 +981,7 @@ func c19Graph(k int, reads [][]byte, counts []int, fail func(sig, format string,
 		consStr = hx(cons.Sequence())
 	}
 	// single read without repeated k-mer comes back unchanged
-	if len(reads) == 1 && k <= 31 && len(lows[0]) >= k {
+	if len(reads) == 1 && k >= 2 && k <= 31 && len(lows[0]) >= k {
 		r := lows[0]
 		plain := true
 		for _, b := range r {
